@@ -27,7 +27,9 @@ Print Assumptions C17_distinct_keys_never_alias.
 
 Example C17_refines_hyp_satisfiable :
   hist_ok (mc_proj memstore_cfg) true spec_empty
-    [ONew [1;2;3]%N; OPut [7]%N 0; OMut 0 [9;9;9]%N; OGet [7]%N; OPeek [7]%N; OHas [8]%N] = true.
+    [ONew [1;2;3]%N; OPut [7]%N 0; OMut 0 [9;9;9]%N; OGet [7]%N; OPeek [7]%N; OHas [8]%N;
+     (* two streams open at the same time, writes interleaved *)
+     OOpen; OOpen; OWrite 0 0; OWrite 1 0; OWrite 0 0; OCommit 1 [5]%N; OCommit 0 [6]%N; OGet [5]%N; OGet [6]%N] = true.
 Proof. reflexivity. Qed.
 
 (* --- insulation: Put(k, slice h), then any writes of the caller to slices it owns (h included):
@@ -92,20 +94,36 @@ Theorem C17_refines_fs : forall cfg,
   path_ok (f_base cfg) -> forall ops,
   (forall k k', wfb k -> wfb k' -> enc_key cfg k = enc_key cfg k' -> k = k') ->
   hist_ok (@Some (list N)) true spec_empty ops = true -> Forall (op_storable cfg) ops ->
+  forallb atomic_op ops = true ->
   (N.of_nat (length ops) < 2 ^ 254)%N ->
   fs_obs cfg (fstate0 cfg) ops = spec_run (@Some (list N)) true spec_empty ops.
 Proof. exact fs_refines. Qed.
 Print Assumptions C17_refines_fs.
+
+(* PARTIAL: [atomic_op] restricts C17_refines_fs to histories in which every stream is opened, fed
+   and committed by one operation (Put, PutStream+Write*+commit, PutVec).  Streams kept OPEN across
+   other operations (OOpen / OWrite / OCommit) are in the executable model, in C17_refines for the
+   in-memory stores (proved, below in C17_refines: [hist_ok] admits them), in C17_fs_contained
+   (proved), in the correspondence run, and — as concurrent writers interleaved at system-call
+   granularity — in C18_atomic / C18_invariant; the sequential refinement statement for them on the
+   file-system store is the following, NOT proved here: *)
+Definition C17_refines_fs_streams_full : Prop := forall cfg,
+  path_ok (f_base cfg) -> forall ops,
+  (forall k k', wfb k -> wfb k' -> enc_key cfg k = enc_key cfg k' -> k = k') ->
+  hist_ok (@Some (list N)) true spec_empty ops = true -> Forall (op_storable cfg) ops ->
+  (N.of_nat (length ops) < 2 ^ 254)%N ->
+  fs_obs cfg (fstate0 cfg) ops = spec_run (@Some (list N)) true spec_empty ops.
 
 (* ... in particular for the repaired default configuration (base32 applied, empty key refused):
    no hypothesis about the escaping function is left *)
 Theorem C17_refines_fs_repaired : forall base sh ops,
   path_ok base ->
   hist_ok (@Some (list N)) true spec_empty ops = true -> Forall (op_storable (repaired_cfg base sh)) ops ->
+  forallb atomic_op ops = true ->
   (N.of_nat (length ops) < 2 ^ 254)%N ->
   fs_obs (repaired_cfg base sh) (fstate0 (repaired_cfg base sh)) ops = spec_run (@Some (list N)) true spec_empty ops.
 Proof.
-  intros base sh ops B H S L. apply fs_refines; auto.
+  intros base sh ops B H S A L. apply fs_refines; auto.
   apply escaping_enc_inj. split. reflexivity. constructor. exact b32enc_inj. exact b32enc_alpha. exact b32enc_nonempty.
 Qed.
 Print Assumptions C17_refines_fs_repaired.
@@ -126,7 +144,7 @@ Example C17_refines_fs_hyp_satisfiable :
   let cfg := pinned_cfg wbase R12 in
   let ops := [ONew content1; OPut [107;101;121]%N 0; OMut 0 [1;2;3]%N; OGet [107;101;121]%N; OHas [107]%N] in
   path_ok (f_base cfg) /\ (forall k k', wfb k -> wfb k' -> enc_key cfg k = enc_key cfg k' -> k = k') /\
-  hist_ok (@Some (list N)) true spec_empty ops = true /\ Forall (op_storable cfg) ops.
+  hist_ok (@Some (list N)) true spec_empty ops = true /\ Forall (op_storable cfg) ops /\ forallb atomic_op ops = true.
 Proof.
   assert (P : forall k, plain k -> (lenN k <=? name_max)%N = true -> key_len_ok k -> bytes_ok k = true ->
                exists d, storable (pinned_cfg wbase R12) k d).
@@ -139,6 +157,7 @@ Proof.
   split. { repeat constructor. }
   split. { intros k k' _ _ H. exact H. }
   split. { reflexivity. }
+  split; [|reflexivity].
   repeat constructor; unfold op_storable; simpl; auto.
   - apply P. apply PL. discriminate. reflexivity. reflexivity. unfold key_len_ok. simpl. reflexivity. reflexivity.
   - apply P. apply PL. discriminate. reflexivity. reflexivity. unfold key_len_ok. simpl. reflexivity. reflexivity.
